@@ -9,21 +9,32 @@ EXTENDS Merge, TLC, Json
 
 CONSTANT Triples    \* TRUE: also three branches
 
-VARIABLES x, y, z, phase
-vars == <<x, y, z, phase>>
+VARIABLES x, y, z, phase,
+          drop   \* the branch y has dropped the last column (every one of its rows is then another row)
+vars == <<x, y, z, phase, drop>>
 
 Rows == 1..4
 BaseRows == {1, 2}
 Versions == SUBSET Rows
 
-Init == x \in Versions /\ y = {} /\ z = {} /\ phase = "pick"
+(* When a branch has other COLUMNS, no row of it is a row of the base (a row is all of its cells).  The      *)
+(* statement's rule then gives: the base rows are removed by that branch, its rows are added, and the result *)
+(* has the columns no branch removed - which is the set of PROJECTED rows of KeylessResult over the row      *)
+(* numbers (row n projects to row n; distinct rows stay distinct: the first cell differs).  An implementation *)
+(* that cannot match such rows may REFUSE the merge; what it must not do is answer with other rows.          *)
+Init == x \in Versions /\ y = {} /\ z = {} /\ phase = "pick" /\ drop = FALSE
 Next == /\ phase = "pick" /\ phase' = "done"
         /\ y' \in Versions
+        /\ drop' \in BOOLEAN
         /\ z' \in (IF Triples THEN {BaseRows, {1}, {2, 3}, {1, 2, 4}} ELSE {BaseRows})
         /\ UNCHANGED x
         /\ LET bs == IF Triples THEN <<x, y', z'>> ELSE <<x, y'>> IN
-             PrintT(<<"SCN", ToJson([keyless |-> TRUE, base |-> BaseRows, branches |-> bs,
-                                     result |-> KeylessResult(BaseRows, bs)])>>)
+             PrintT(<<"SCN", ToJson([keyless |-> TRUE, base |-> BaseRows, branches |-> bs, drop |-> drop',
+                                     mayrefuse |-> drop',
+                                     result |-> KeylessResult(BaseRows, bs),
+                                     \* with a dropped column the rule can also be read "every row of y is a new row":
+                                     \* then y's rows stay although another branch removed their base rows
+                                     alt |-> IF drop' THEN KeylessResult(BaseRows, bs) \cup y' ELSE KeylessResult(BaseRows, bs)])>>)
 Spec == Init /\ [][Next]_vars
 
 Laws == /\ KeylessResult(BaseRows, <<x, BaseRows>>) = x
